@@ -2,6 +2,29 @@
 """Regenerate the seeded-change table of DESIGN.md section 10 from /verif/seeded/*/meta.json."""
 import json, glob, os, re
 NOTES = {
+ "C10e-tracehead-declaration-order": "missed at first by C10 (C05 caught it): C10's chains were always declared over-first; the same programs declared under-first added",
+ "C19e-change-bulk-dict-update": "missed at first: invalid field names never travelled in positional mappings; dict/odict/Share arguments with invalid names added",
+ "C20e-added-none-field-not-changed": "missed at first: environment writes only set `value`; multi-field writes that add a field (None / 1) after the mark added",
+ "C15e-server-for-rebinds-init": "missed at first: the server scaffolds' per/for keys were ignored by Server.reinit, so lost data never showed; per period / for prefix families added",
+ "C09e-resuspend-skips-main-plain-aux": "missed at first by C09 (C10 caught it): no plain aux sat under conditional auxes; two conditional auxes on one frame + plain aux below added",
+ "C04e-slave-in-back-scheduled": "missed at first: slaves were never declared `in front|back`; order variants (+ `bid start|stop all`) added to the fiat family",
+ "C03e-frame-exit-skips-done-aux": "missed at first by C03 (C06 caught it): no aux reported done and stayed entered when the run ended; R4 programs + held-aux oracle added",
+ "C11e-segue-merged-pass-skips-aux-counter": "missed at first by C11 (C07 caught it): no counting aux on a non-top frame under an interrupting upper frame; clocks-aux-interrupt family added",
+ "C12e-clone-drops-unders": "missed at first: no moot used `under` / non-default first / next links; clone-shapes family added",
+ "C16e-stale-lookahead-across-load": "missed at first: no multi-file program ended a loaded file with a continuation line; loaded-fragment layout variants added",
+ "C13e-framer-main-uses-tag": "missed at first by C13 (C12 caught it): no main-relative reference inside a clone nested in a clone; nested-clone family (180 programs) added",
+ "C22e-change-any-short-circuit": "missed at first: every log had one loggee; 2-3 loggee shards added",
+ "C21e-conjunction-resumes-at-pending": "missed at first by C21 (C07 caught it): conjunctions were evaluated on fixed values; every value schedule over 3 ticks for 2-3 clause conjunctions added",
+ "C26e-shutdown-except-connectionerror": "missed at first: the socket double's shutdown() never failed; shutdown errno menu (ENOTCONN, EBADF, EINVAL, ECONNRESET, EPIPE) added",
+ "C28e-idle-check-stale-loop-var": "missed at first: one connection per server (or the active one accepted last); three connections N, K, M with K active added",
+ "C31e-reinit-before-rebuild-keepalive": "missed at first by C31 (C30 caught it): no HEAD in C31's method alphabet; HEAD/GET/POST switching sequences added",
+ "C33e-cr-lookahead-single-yield": "missed at first: the parser was never resumed without new bytes; idle passes between receives added to the split engine (C33 and C29)",
+ "C23e-header-buffered-after-rotation": "missed at first: crash images judged records only; header obligation after a flush point + restart phase (reuse=True) added",
+ "C39e-pop-default-identity-shortcut": "missed at first: pop defaults were never also stored values; pop(k, 0|1|None) with those values stored added",
+ "C35e-once-two-failing-destinations": "missed at first: failures were all-or-nothing per call; every failing subset of 3 destinations per call added",
+ "C44e-sideonly-generic-tween": "missed at first: sides were at most 12 long; long-sided polygon family (extent 15..40, every lattice point on every side) added",
+ "C46e-limits-cached-at-resolve": "missed at first: limits were fixed after construction; retune operations between updates added",
+ "C37e-inuse-truthiness": "missed at first: no falsy keys (uid 0, name '', ha ''); added for remotes and the local device",
  "C08b-start-readied-skips-check": "missed at first by C08 (C04 caught it): no framer was readied and later started under a guard that flips; guarded-start family added to C08",
  "C02d-stamp-by-multiplication": "missed at first by C02 (C11 caught it): the reference scheduler followed the observed stamps; the statement's `every tick when p does not exceed the tick` clause is now binding on decimal grids too (20-tick horizons)",
  "C16d-continuation-two-phase": "missed at first: blank/comment lines were only inserted before the first continuation line; fillers between every pair of continuation lines added",
